@@ -767,13 +767,14 @@ class C16(Engine):
         self.probes["ctx_block"] += 1
         pre = self._observe()
         path = self.xbi.XonshPathLiteral(self._p(op["to"]))
+        want_inside = self._ident(str(path))  # resolved the way chdir will resolve it (relative to the cwd, no detour through ancestors)
         entered = False
         exc = None
         try:
             with path.cd():
                 entered = True
                 inside = self._observe()
-                if inside["ident"] != self._ident(os.path.join(pre["cwd"] or "/", str(path))) and pre["cwd"] is not None:
+                if inside["ident"] != want_inside and pre["cwd"] is not None:
                     self._viol("ctx.restores", f"inside `with p'{path}'.cd()` the working directory is {inside['cwd']!r}", op="ctx", phase="enter")
                 for b in op["body"]:
                     self.cur_op = f"ctx-body {b['k']} {b['args']}"
